@@ -1,6 +1,6 @@
 /-
   C08 — Queue: capacity bound and back-pressure.  Theorems about M4, for every `max`, any number of
-  producers/consumers, any wake-up policy.
+  producers/consumers, any wake-up policy, silent and non-silent queues.
 -/
 import MoThreads.Props.C07
 namespace MoThreads.Queue
@@ -26,34 +26,70 @@ theorem C08_full_blocks_or_raises {s s' : State} {t x : Nat} {a : Act} {l : Labe
       s'.pc t = (if s.tillFired x then .sRel .timeout else .sPark a (some x)) := by
   unfold step at hs; rw [hp] at hs; cases hs; simp [State.setPc]
 
-/-- A timed-out wake-up re-tests everything: after waking, the producer goes back to the loop head
-(closed?, room?, till?) — it never appends without room. -/
+/-- A wake-up re-tests everything: after waking, the producer goes back to the loop head (closed?, room?,
+till?) — directly in silent mode, after the "queue is full" alert test (one read of its till, one of the
+length) otherwise — and it never appends on the way. -/
 theorem C08_woken_producer_retests {s s' : State} {t : Nat} {a : Act} {tl : Option Nat} {l : Label}
-    (hp : s.pc t = .sWoke a tl) (hs : step s t = some (s', l)) : s'.pc t = .sC a tl ∧ s'.dq = s.dq := by
-  unfold step at hs; rw [hp] at hs; cases hs; simp [State.setPc]
+    (hp : s.pc t = .sWoke a tl) (hs : step s t = some (s', l)) :
+    s'.dq = s.dq ∧ s'.added = s.added ∧
+      s'.pc t = (if s.silent then .sC a tl else (match tl with | some x => .sAlertT a x | none => .sAlertLen a none)) := by
+  unfold step at hs; rw [hp] at hs; cases hs
+  cases tl <;> simp [State.setPc]
 
-/-- A parked producer is resumed by a signal (a consumer made room and passed the baton) or by its
-own till, and only takes the mutex when it is free. -/
+theorem C08_alert_test_returns_to_loop_head {s s' : State} {t : Nat} {l : Label} (hs : step s t = some (s', l)) :
+    (∀ a x, s.pc t = .sAlertT a x → s'.dq = s.dq ∧ (s'.pc t = .sC a (some x) ∨ s'.pc t = .sAlertLen a (some x))) ∧
+    (∀ a tl, s.pc t = .sAlertLen a tl → s'.dq = s.dq ∧ (s'.pc t = .sC a tl ∨ s'.pc t = .sAlertNum a tl)) ∧
+    (∀ a tl, s.pc t = .sAlertNum a tl → s'.dq = s.dq ∧ s'.pc t = .sC a tl) := by
+  refine ⟨?_, ?_, ?_⟩
+  · intro a x hp; unfold step at hs; rw [hp] at hs; cases hs
+    simp only [State.setPc, if_true, true_and]; split <;> simp
+  · intro a tl hp; unfold step at hs; rw [hp] at hs; cases hs
+    simp only [State.setPc, if_true, true_and]; split <;> simp
+  · intro a tl hp; unfold step at hs; rw [hp] at hs; cases hs; simp [State.setPc]
+
+/-- A parked producer is resumed by a signal (a consumer made room and passed the baton), by its own till
+(silent queue) or by the stall timer of THIS wait (queue that is not silent), and only takes the mutex when it
+is free: while none of these happens it does not move. -/
 theorem C08_parked_producer_enabled_iff {s : State} (t : Nat) (a : Act) (tl : Option Nat)
     (hp : s.pc t = .sParked a tl) :
-    (step s t).isSome = true ↔ ((s.signalled t = true ∨ tillOn s tl = true) ∧ s.mutex = none) := by
+    (step s t).isSome = true ↔
+      ((s.signalled t = true ∨ (if s.silent then tillOn s tl else s.stalled t) = true) ∧ s.mutex = none) := by
   unfold step; rw [hp]; simp only
-  by_cases hc : ((s.signalled t || tillOn s tl) && decide (s.mutex = none)) = true
+  by_cases hc : ((s.signalled t || (if s.silent then tillOn s tl else s.stalled t)) && decide (s.mutex = none)) = true
   · simp only [hc, if_true, Option.isSome_some, true_iff]
     simpa [Bool.and_eq_true, Bool.or_eq_true] using hc
   · simp only [hc]; simp
     simp [Bool.and_eq_true, Bool.or_eq_true] at hc
     intro h1; exact hc h1
 
+/-- Every wait gets a fresh stall timer: parking clears the stall flag, so a timer that fired during an earlier
+wait cannot resume the producer again (a producer that kept one timer for the whole stall would spin). -/
+theorem C08_stall_timer_is_fresh {s s' : State} {t : Nat} {a : Act} {tl : Option Nat} {l : Label}
+    (hp : s.pc t = .sPark a tl) (hs : step s t = some (s', l)) : s'.stalled t = false ∧ s'.pc t = .sRel2 a tl := by
+  unfold step at hs; rw [hp] at hs; cases hs; simp [State.setPc]
+
 /-- Non-vacuity: max = 1, queue holds 5; producer t0 with till 3 finds it full, parks; the till
 fires; it wakes (timeout), re-tests, raises, contents unchanged. -/
 def demo8 : Option State := do
   let run (s : State) (ts : List Nat) : Option State := ts.foldlM (fun s t => (step s t).map (·.1)) s
-  let s ← call (init 1 false [5]) 0 (.add 9 (some 3) false)
+  let s ← call (init 1 false true [5]) 0 (.add 9 (some 3) false)
   let s ← run s [0, 0, 0, 0, 0, 0]
   let s := fireTill s 3
   run s [0, 0, 0, 0, 0, 0]
 
 example : (demo8.map fun s => (s.dq, s.pc 0, s.mutex)) = some ([5], .idle .timeout, none) := by decide
+
+/-- … and the same on a queue that is not silent: the till fires while the producer is parked, nothing happens
+until the stall timer of that wait fires; then it wakes, re-tests and raises. -/
+def demo8ns : Option (State × State) := do
+  let run (s : State) (ts : List Nat) : Option State := ts.foldlM (fun s t => (step s t).map (·.1)) s
+  let s ← call (init 1 false false [5]) 0 (.add 9 (some 3) false)
+  let s ← run s [0, 0, 0, 0, 0, 0]
+  let s1 := fireTill s 3                -- the caller's till alone does not resume it
+  let s := stall s1 0
+  let s ← run s [0, 0, 0, 0, 0, 0, 0]
+  pure (s1, s)
+
+example : (demo8ns.map fun q => ((step q.1 0).isSome, q.2.dq, q.2.pc 0, q.2.mutex)) = some (false, [5], .idle .timeout, none) := by decide
 
 end MoThreads.Queue
